@@ -59,6 +59,7 @@ type parsed struct {
 	jsonOut []byte
 	jsonErr error
 	obs     sx.S
+	nfObs   sx.S // what the declarative normal form must give: the marshalled JSON, or none
 }
 
 // runParse: text -> (model case, implementation observation)
@@ -84,6 +85,7 @@ func runParse(text, form string) (*parsed, string) {
 	if r.err != nil && !warning.Is(r.err) {
 		r.hard = true
 		r.obs = sx.L(sx.A("err"))
+		r.nfObs = sx.A("none")
 		return r, ""
 	}
 	n, nosteps := warnStats(r.err)
@@ -111,6 +113,10 @@ func runParse(text, form string) (*parsed, string) {
 		js = v
 	}
 	r.obs = sx.L(status, sx.N(countSteps(r.p.Steps)), js)
+	r.nfObs = js
+	if r.jsonErr != nil {
+		r.nfObs = sx.A("none")
+	}
 	return r, ""
 }
 
@@ -176,6 +182,17 @@ func init() {
 				oracleFail("C03", "data-loss", c, lost+"; output "+out)
 				continue
 			}
+			// nothing is lost or re-typed by marshalling: the values read back from the marshalled JSON are the
+			// values of the parsed pipeline (independent projection of the Go values, see proj.go). Documents of
+			// the known-finding class F17 (empty key / label next to a surviving alias) are left to C09.
+			if !emptyPrimaryWithAlias(d) {
+				if p2, err2 := pipeline.Parse(bytes.NewReader(r.jsonOut)); err2 == nil || warning.Is(err2) {
+					if a, b := projPipeline(r.p), projPipeline(p2); a != b {
+						oracleFail("C03", "marshal-loses-values", c, fmt.Sprintf("the values read back from the marshalled JSON differ from the parsed pipeline's:\nparsed   : %s\nread back: %s\nJSON     : %s", a, b, out))
+						continue
+					}
+				}
+			}
 			// YAML marshalling carries the same data
 			var yb []byte
 			var yerr error
@@ -206,6 +223,7 @@ func init() {
 				stat("C03", "with-warning")
 			}
 			fmt.Fprintf(out2(), "CASE\tC03\t%s\t%s\t1\n", sx.String(r.caseSx), sx.String(r.obs))
+			fmt.Fprintf(out2(), "CASE\tC03nf\t%s\t%s\t1\n", sx.String(r.caseSx), sx.String(r.nfObs))
 		}
 	}
 }
